@@ -65,3 +65,17 @@ package client
 //@     invariant forall t string, j int :: {input.RequestItems[t][j]} t in visited && input.RequestItems[t] != reqs && 0 <= j && j < len(input.RequestItems[t]) ==>
 //@                ((input.RequestItems[t][j].DeleteRequest != nil) != (input.RequestItems[t][j].PutRequest != nil))
 //@     invariant forall j int :: {reqs[j]} 0 <= j && j <= rangeindex ==> ((reqs[j].DeleteRequest != nil) != (reqs[j].PutRequest != nil))
+
+// ---- C15 / C19: a failed batch request is either reported to the caller or recorded as unprocessed -----
+
+//@ func handleBatchWriteRequestError
+//@   requires unprocessed != nil
+//@   modifies unprocessed[*], arrays("ddb2types.WriteRequest")
+//@   ensures[C15,C19] err == nil ==> result == nil
+//@   ensures[C15,C19] result != nil ==> result == err
+//@   ensures[C15,C19] (err == nil || result != nil) ==> content(unprocessed) == old(content(unprocessed))
+//@   ensures[C15,C19] err != nil && result == nil ==> table in unprocessed &&
+//@                len(unprocessed[table]) == old(table in unprocessed ? len(unprocessed[table]) : 0) + 1 &&
+//@                unprocessed[table][len(unprocessed[table]) - 1] == req
+//@   ensures[C15,C19] err != nil && result == nil ==> forall j int :: 0 <= j && j < old(table in unprocessed ? len(unprocessed[table]) : 0) ==> unprocessed[table][j] == old(unprocessed[table][j])
+//@   ensures[C15,C19] forall t2 string :: {unprocessed[t2]} t2 != table ==> ((t2 in unprocessed) == old(t2 in unprocessed)) && unprocessed[t2] == old(unprocessed[t2])
